@@ -37,3 +37,12 @@ pub(crate) use p_value::*;
 pub use selection::*;
 pub use stats::*;
 pub use student_t::*;
+
+// Verification hook: harness code lives outside the repository and is only compiled by the
+// model checker (`cfg(kani)`) or by native counterexample replays (`--cfg folo_verif`).
+#[cfg(any(kani, folo_verif))]
+#[doc(hidden)]
+#[allow(warnings, clippy::all, clippy::pedantic, clippy::nursery, clippy::restriction)]
+pub mod folo_verif {
+    include!(concat!(env!("FOLO_VERIF_DIR"), "/kani/cbh_stats/harness.rs"));
+}
